@@ -6,6 +6,7 @@ pub mod c01;
 pub mod c02;
 pub mod c03;
 pub mod c04;
+pub mod c05;
 pub mod c06;
 pub mod c07;
 pub mod c09;
@@ -19,7 +20,7 @@ pub mod c18;
 pub mod liars;
 
 pub fn all() -> Vec<&'static CheckDef> {
-    vec![&c01::DEF, &c02::DEF, &c03::DEF, &c04::DEF, &c06::DEF, &c07::DEF, &c09::DEF, &c10::DEF, &c11::DEF, &c12::DEF, &c13::DEF, &c14::DEF, &c16::DEF, &c18::DEF]
+    vec![&c01::DEF, &c02::DEF, &c03::DEF, &c04::DEF, &c05::DEF, &c06::DEF, &c07::DEF, &c09::DEF, &c10::DEF, &c11::DEF, &c12::DEF, &c13::DEF, &c14::DEF, &c16::DEF, &c18::DEF]
 }
 
 pub fn lookup(id: &str) -> Option<&'static CheckDef> {
